@@ -474,6 +474,22 @@ func sendfsmOutgoingMsg(peer *peer, paths []*table.Path) {
 	}
 }
 
+// localClusterIDs returns the cluster-ids this speaker reflects routes with
+// (the route-reflector-cluster-id of each of its clients) when peer is an iBGP
+// peer.  The caller holds s.shared.mu.
+func (s *BgpServer) localClusterIDs(peer *peer) []netip.Addr {
+	if !peer.isIBGPPeer() {
+		return nil
+	}
+	var ids []netip.Addr
+	for _, p := range s.neighborMap {
+		if conf := p.fsm.pConf.ReadOnly(); conf.RouteReflector.Config.RouteReflectorClient {
+			ids = append(ids, conf.RouteReflector.State.RouteReflectorClusterId)
+		}
+	}
+	return ids
+}
+
 func isASLoop(peer *peer, path *table.Path) bool {
 	return slices.Contains(path.GetAsList(), peer.AS())
 }
@@ -2048,7 +2064,7 @@ func (s *BgpServer) handleFSMMessage(peer *peer, e *fsmMsg) {
 		case bgp.BGP_MSG_ROUTE_REFRESH:
 			s.handleRouteRefresh(peer, e)
 		case bgp.BGP_MSG_UPDATE:
-			pathList, eor, isLimit := peer.handleUpdate(e)
+			pathList, eor, isLimit := peer.handleUpdate(e, s.localClusterIDs(peer))
 			if isLimit {
 				_ = s.setAdminState(peer.ID(), "", adminStatePfxCt)
 				return
